@@ -30,7 +30,45 @@ def run(pid, spec, tier, seed, merged, drv):
     if pid == "C12":
         return c12(spec, tier, seed, merged, drv, params)
     binary = drv.build_mon()
+    if pid == "C15":
+        return c15(spec, tier, seed, merged, drv, params, binary)
     drv.mon_leg(merged, binary, pid, seed, tier, params)
+    if pid == "C14":
+        # CLI export / import / never-overwrite, for both CLI builds whose import code differs
+        for tag, feats in (("default", None), ("variablelist-only", ["variablelist"])):
+            cli = drv.build_cli(features=feats, tag=tag)
+            cli_leg(drv, merged, binary, "c14cli", seed, tier, cli, params.get("cli_cases", 40), "cli[%s]" % tag)
+    if pid == "C08":
+        cli = drv.build_cli(tag="default")
+        cli_leg(drv, merged, binary, "c15", seed, tier, cli, params.get("cli_cases", 30), "cli-malformed",
+                extra={"only_malformed": 1})
+
+
+def cli_leg(drv, merged, binary, sub, seed, tier, cli, cases, leg, extra=None, shards=None, timeout=1800):
+    tmp = os.path.join(drv.CACHE, "run", "cli-%s-%d" % (sub, os.getpid()))
+    os.makedirs(tmp, exist_ok=True)
+    args = {"cli": cli, "tmp": tmp}
+    if extra:
+        args.update(extra)
+    p = {"cases": cases, "args": args, "timeout": timeout}
+    if shards:
+        p["shards"] = shards
+    drv.mon_leg(merged, binary, sub, seed, tier, p, leg=leg)
+    shutil.rmtree(tmp, ignore_errors=True)
+
+
+def c15(spec, tier, seed, merged, drv, params, binary):
+    cli = drv.build_cli(tag="default")
+    cli_leg(drv, merged, binary, "c15", seed, tier, cli, params.get("cases", 100), "main")
+    if tier == "thorough":
+        # the CLI code differs with/without adhoccounting; run the same monitor on that build too
+        cli2 = drv.build_cli(features=["variablelist", "frontend"], tag="no-adhoccounting")
+        cli_leg(drv, merged, binary, "c15", seed + 1, tier, cli2, params.get("cases", 100) // 4, "cli[no-adhoccounting]")
+        if shutil.which("valgrind"):
+            cli_leg(drv, merged, binary, "c15", seed + 2, tier, cli, params.get("valgrind_cases", 12), "valgrind",
+                    extra={"wrapper": "valgrind -q --error-exitcode=97 --leak-check=no"}, timeout=3000)
+        else:
+            merged.inconclusive.append("valgrind not found")
 
 
 def replay(pid, spec, path, drv):
